@@ -295,3 +295,33 @@ pub fn sign_chunks(data: &[u8]) {
         sign::check_history(ctx, &sign::SignHistory { seed: Hex(seed.to_vec()), msgs })
     });
 }
+
+/// run a target by name on one input (used by `rv replay` for saved fuzz findings and by `rv gen-corpus` self-checks);
+/// returns Err(message) if the target reports a violation
+pub fn run_target(target: &str, data: &[u8]) -> Result<(), String> {
+    let f: fn(&[u8]) = match target {
+        "codec_diff" => codec_diff,
+        "request_classify" => request_classify,
+        "server_seq" => server_seq,
+        "envelope_blob" => envelope_blob,
+        "merkle_ops" => merkle_ops,
+        "sign_chunks" => sign_chunks,
+        _ => return Err(format!("unknown fuzz target {}", target)),
+    };
+    match std::panic::catch_unwind(|| f(data)) {
+        Ok(()) => Ok(()),
+        Err(p) => {
+            install_quiet_panic_hook();
+            Err(panic_msg(&p))
+        }
+    }
+}
+
+pub const TARGETS: [(&str, &[&str]); 6] = [
+    ("codec_diff", &["C05", "C06"]),
+    ("request_classify", &["C07"]),
+    ("server_seq", &["C07", "C08"]),
+    ("envelope_blob", &["C14"]),
+    ("merkle_ops", &["C04"]),
+    ("sign_chunks", &["C13"]),
+];
